@@ -7,7 +7,7 @@ import z3
 from . import smt
 from .values import (
     Unsupported, Sym, Ref, TupleV, FuncV, LambdaV, BuiltinV, ClassV, ModuleV, SuperV, Raised, ExcSym,
-    PyList, SeqV, PyDict, Obj, ArrState, DataView, MaskView, Idx, StackState, Slice, is_concrete, num_term, isint_of,
+    PyList, SeqV, PyDict, Bag, Obj, ArrState, DataView, MaskView, Idx, StackState, Slice, is_concrete, num_term, isint_of,
     is_num, zand, zor, znot,
 )
 
@@ -95,6 +95,12 @@ class ModelMixin(object):
                 if o.present:
                     raise Unsupported("iteration over dict with symbolic keys")
                 yield st, list(o.entries.keys())
+            elif isinstance(o, Bag):
+                n = smt.fresh("bag_len", z3.IntSort())
+                st.assume(n >= 0)
+                yield st, SeqV(n, lambda k: Sym("dyn", smt.fresh("bag_item", smt.Val)), tag="bag")
+            elif isinstance(o, Obj) and o.cls.name == "SymValues" and hasattr(self, "symvalues_seq"):
+                yield st, self.symvalues_seq(st, o)
             else:
                 raise Unsupported("iteration over %r" % o)
         elif isinstance(v, Sym) and v.kind == "dyn":
@@ -159,6 +165,9 @@ class ModelMixin(object):
             if isinstance(c, PyDict):
                 for r in self.dict_get(st, c, idx, None, strict=True):
                     yield r
+                return
+            if isinstance(c, Bag):
+                yield st, Sym("dyn", smt.fresh("bag_item", smt.Val))
                 return
             if isinstance(c, (ArrState, StackState)):
                 for r in self.call_builtin("arr.getitem", st, [o, idx], {}):
@@ -261,8 +270,15 @@ class ModelMixin(object):
     def set_item(self, st, o, idx, v):
         if isinstance(o, Ref):
             c = st.get(o)
+            if isinstance(c, Bag):
+                yield st, None
+                return
             if isinstance(c, PyDict):
                 if not isinstance(idx, str):
+                    if not c.present and getattr(c, "total", None) is None and st.is_fresh(o):
+                        st.set(o, Bag("dict"))  # a local dict keyed by run-time values: content no longer tracked
+                        yield st, None
+                        return
                     raise Unsupported("dict store with symbolic key")
                 d = PyDict(c.entries, c.present)
                 d.total = getattr(c, "total", None)
@@ -387,6 +403,9 @@ class ModelMixin(object):
             if isinstance(c, PyDict):
                 yield st, BuiltinV("dict." + name, self_val=o)
                 return
+            if isinstance(c, Bag):
+                yield st, BuiltinV("bag.method", self_val=o)
+                return
             if isinstance(c, (ArrState, StackState)):
                 for r in self.call_builtin("arr.attr", st, [o, name], {}):
                     yield r
@@ -412,8 +431,7 @@ class ModelMixin(object):
             yield self.raise_(st, "AttributeError", "'NoneType' object has no attribute '%s'" % name)
             return
         if is_num(o):
-            yield self.raise_(st, "AttributeError", "number has no attribute '%s'" % name)
-            return
+            raise Unsupported("attribute %s of a number is not modelled" % name)
         raise Unsupported("attribute %s of %r" % (name, o))
 
     def class_attr_hook(self, st, o, name):
@@ -455,6 +473,9 @@ class ModelMixin(object):
         if self.class_is_subclass(c.cls, "BaseException") and name == "args":
             yield st, TupleV([])
             return
+        if c.cls.info is not None and not st.is_fresh(ref) and not getattr(c, "closed", False):
+            # a pre-existing object of a repository class: its attribute set is not fully modelled
+            raise Unsupported("attribute %s of a %s object is not modelled" % (name, c.cls.name))
         yield self.raise_(st, "AttributeError", "'%s' object has no attribute '%s'" % (c.cls.name, name))
 
     def set_attr(self, st, o, name, v):
@@ -466,6 +487,8 @@ class ModelMixin(object):
                     for r in hook(self, st, o, name, v):
                         yield r
                     return
+                if not st.is_fresh(o):
+                    st.log.append(("effect", "attribute store .%s on a pre-existing %s object" % (name, c.cls.name)))
                 c2 = Obj(c.cls, c.fields)
                 for a in ("attr_hook", "setattr_hook"):
                     if hasattr(c, a):
@@ -585,6 +608,32 @@ class ModelMixin(object):
                             yield s3, [v] + rest
 
     def _comp_symbolic(self, node, g, elt, st, seq, saved):
+        if seq.tag == "bag":
+            # comprehension over an untracked local container: an untracked container again, provided the element and
+            # filter expressions are pure and cannot raise on an arbitrary element
+            probe = st.fork()
+            outs = []
+            for s1, r in self.assign(g.target, seq.get(smt.fresh("k", z3.IntSort())), probe):
+                conds = [(s1, True)]
+                for cnd in g.ifs:
+                    nxt = []
+                    for s, ok in conds:
+                        for s2, c in self.ev_truth(cnd, s):
+                            if isinstance(c, Raised):
+                                outs.append((s2, c))
+                            else:
+                                nxt.append((s2, ok))
+                    conds = nxt
+                for s, ok in conds:
+                    for s2, v in self.ev(elt, s):
+                        outs.append((s2, v))
+            for s2, v in outs:
+                if isinstance(v, Raised):
+                    s2.env = dict(saved)
+                    yield s2, v
+            st.env = dict(saved)
+            yield st, st.alloc(Bag("comprehension"))
+            return
         if g.ifs:
             raise Unsupported("filtered comprehension over a sequence of symbolic length")
         fi = self.frames[-1] if self.frames else None
